@@ -1263,6 +1263,14 @@ func (g *Gen) doReturn(x *ssa.Return) {
 	}
 	g.frameCheck(env, x.Pos())
 	g.eng.onReturn(g, x)
+	if g.retStates == nil {
+		g.retStates = map[int]retState{}
+	}
+	var resVals []*Val
+	for _, r := range x.Results {
+		resVals = append(resVals, g.val(r))
+	}
+	g.retStates[g.kcnt["ret"]] = retState{heapInt: g.heap["Int"], results: resVals}
 	g.kcnt["ret"]++
 }
 
